@@ -34,8 +34,8 @@ Definition enc_trace (l : list tr) : T := Tl (flat_map enc_tr l).
 
 (* the observable of one case: the trace of the top-level script, or [-1] when the model runs out of fuel *)
 Definition obs_case (hs : list (evk * list body)) (sc : list (list nat)) (xs : list xact)
-                    (os : list op) : T :=
-  match exec_ops false (prog_of hs) 3 400 os (init sc xs) with
+                    (ms : list (option (option Z))) (os : list op) : T :=
+  match exec_ops false false (prog_of hs) 3 400 os (set_mid ms (init sc xs)) with
   | None => Tl [Tn (-1)]
   | Some s => if bad s then Tl [Tn (-2)] else enc_trace (trace s)
   end.
